@@ -14,27 +14,26 @@ Definition field (lay : list leaf) (nm : string) : option (Z * kind * bool * Z *
   | None => None
   end.
 
-(* scale factors, limits, order of the steps, tie-point columns and field types as the source has them *)
+(* scale factors, limits, order of the steps, tie-point columns (obtained by running the functions on probes, Gen_Geo) and field
+   types (Gen_Layout) as the source has them *)
 Theorem C06_source_shape :
-  (* 1/128 degree (POD), 1e-4 degree (KLM); the functions return (lons, lats) *)
+  (* 1/128 degree (POD), 1e-4 degree (KLM), computed in double precision; the functions return (lons, lats) *)
   geo_pod_lats_divisor = 128%Q /\ geo_pod_lons_divisor = 128%Q /\ geo_klm_lats_divisor = 10000%Q /\ geo_klm_lons_divisor = 10000%Q /\
   geo_pod_return = "(lons, lats)"%string /\ geo_klm_return = "(lons, lats)"%string /\
-  (* the POD divisor is a Python float: 16-bit words are divided in double precision *)
-  geo_pod_lats_divisor_kind = "python-float"%string /\ geo_pod_lons_divisor_kind = "python-float"%string /\
-  (* read-out, clock drift, meta data, interpolation, flagged lines, range mask -- in this order; limits 90 / 180 *)
-  geo_get_lonlat_steps = ["_get_lonlat_from_file"; "_adjust_clock_drift"; "update_meta_data"; "lonlat_interpolator";
-                          "mask_lines:lons"; "mask_lines:lats"; "mask_range:lats"; "mask_range:lons"]%string /\
-  geo_lat_limit = 90%Q /\ geo_lon_limit = 180%Q /\
+  geo_pod_lats_dtype = "float64"%string /\ geo_pod_lons_dtype = "float64"%string /\
+  geo_klm_lats_dtype = "float64"%string /\ geo_klm_lons_dtype = "float64"%string /\
+  (* read-out, clock drift, meta data, interpolation -- in this order; +-90 / +-180 themselves are kept, 1e-6 beyond is NaN;
+     flagged lines are NaN *)
+  geo_get_lonlat_steps = ["_get_lonlat_from_file"; "_adjust_clock_drift"; "update_meta_data"; "lonlat_interpolator"]%string /\
+  geo_lat_probe_kept = [true; true; false; true; false] /\ geo_lon_probe_kept = [true; true; false; true; false] /\
+  geo_flagged_row_nan = true /\
   (* tie points: every 8th GAC pixel from the 5th, every 40th LAC pixel from the 25th (0-based 4 + 8k, 24 + 40k), 51 of them;
-     the readers use these constants; the interpolators return the full scan width *)
+     the readers' interpolators return one full-width row per line and reproduce the tie points at those columns *)
   geo_gac_sample_points = map (fun k => 4 + 8 * k) (zrange 0 51) /\ geo_lac_sample_points = map (fun k => 24 + 40 * k) (zrange 0 51) /\
-  geo_gac_reader_uses_constant = true /\ geo_lac_reader_uses_constant = true /\
   geo_gac_cols_full = 409 /\ geo_gac_scan_width = 409 /\ geo_lac_cols_full = 2048 /\ geo_lac_scan_width = 2048 /\
-  geo_gac_interpolator_call = "lat_lon_interpolator(lons_subset, lats_subset, GAC_LONLAT_SAMPLE_POINTS, cols_full)"%string /\
-  geo_lac_interpolator_call = "lat_lon_interpolator(lons_subset, lats_subset, LAC_LONLAT_SAMPLE_POINTS, cols_full)"%string /\
-  geo_gac_reader_interpolator = "gtp.gac_lat_lon_interpolator"%string /\ geo_lac_reader_interpolator = "gtp.lac_lat_lon_interpolator"%string /\
-  geo_satint_args = ["(lons_subset, lats_subset)"; "(rows_subset, cols_subset)"; "(rows_full, cols_full)"; "along_track_order"; "cross_track_order"]%string /\
-  geo_satint_rows_subset = "np.arange(lines)"%string /\ geo_satint_rows_full = "np.arange(lines)"%string /\
+  geo_gac_rows_full = 2 /\ geo_lac_rows_full = 2 /\
+  geo_gac_reader_interpolator_is_module_function = true /\ geo_lac_reader_interpolator_is_module_function = true /\
+  geo_gac_ties_reproduced = true /\ geo_lac_ties_reproduced = true /\
   (* 51 signed big-endian words per line: 2 bytes (POD, pairs 4 bytes apart), 4 bytes (KLM, pairs 8 bytes apart) *)
   field pod_gac "earth_location.lats" = Some (2, KI, true, 51, 4) /\ field pod_gac "earth_location.lons" = Some (2, KI, true, 51, 4) /\
   field pod_lac "earth_location.lats" = Some (2, KI, true, 51, 4) /\ field pod_lac "earth_location.lons" = Some (2, KI, true, 51, 4) /\
